@@ -608,6 +608,12 @@ def worker(arg):
                 scal.append((t, ("iexpr", 0), [v], []))
                 scal.append((("tuple", t, "bool"), ("members", [("iexpr", 0), ("bool", True)]), [v], []))
                 scal.append((("darr", t), ("members", [("int", 0), ("iexpr", 0)]), [v], []))
+    # the OUTERMOST node of the source expression varies (GetBit, GetByte, ExtractUint16/32/64, Btoi, arithmetic, If,
+    # scratch load, subroutine call), with run-time values below, at and above 2^N for every target width
+    for (t, bits) in ((("uint", 8), 8), ("byte", 8), (("uint", 16), 16), (("uint", 32), 32), (("uint", 64), 64)):
+        for w in CB.INT_WRAPS[1:]:
+            for v in ((1 << bits) - 1, (1 << bits) % (1 << 64), ((1 << bits) + 1) % (1 << 64), (1 << 64) - 1, 1, 0x0123456789ABCDEF):
+                scal.append((t, ("iexpr", 0, w), [v], []))
     for v in (0, 1, 2, 255, (1 << 64) - 1):
         scal.append(("bool", ("iexpr", 0), [v], []))
         scal.append(("bool", ("iconst", v), [], []))
